@@ -19,7 +19,9 @@ build_coq() {
   # targets: the model and the Properties files of the claimed properties (MANIFEST.json)
   targets="Model/Dump.vo Model/LdDump.vo"
   for p in $(python3 -c "import json;print(' '.join(c['property_id'] for c in json.load(open('$VERIF/MANIFEST.json'))['checks']))"); do
-    [ -f "Properties/$p.v" ] && targets="$targets Properties/$p.vo"
+    for f in Properties/$p*.v; do
+      if grep -q "^Theorem" "$f" 2>/dev/null; then targets="$targets ${f%.v}.vo"; fi
+    done
   done
   targets="$targets ${EXTRA_COQ_TARGETS:-}"
   ( ulimit -v 16000000; timeout 3000 make -k -j16 COQC="timeout 1500 coqc" $targets ) > "$BUILD/logs/coq_make.log" 2>&1 || true
